@@ -7,7 +7,7 @@ from typing import Any, Callable, Dict, List, Optional, Set, Tuple
 from ..core import AnalysisError, Report
 from ..excflow import (GuardFacts, Site, _const_like, _in_annotation, collect_sites, dominating_guards, handler_converts, lexical_handler,
                        make_hierarchy)
-from ..pyfacts import (Repo, cc, cn, normalize_counting_whiles, ancestors, calls, dotted, enclosing_handlers, handler_types, norm, parent, raise_guards,
+from ..pyfacts import (Repo, cc, cn, read_through_locals, resolve_names, normalize_counting_whiles, ancestors, calls, dotted, enclosing_handlers, handler_types, norm, parent, raise_guards,
                        raised_class, walk_no_nested)
 
 ASM = 'flipjump/assembler/assembler.py'
@@ -136,6 +136,14 @@ def discharge(repo: Repo, rel: str, q: str, fn: ast.FunctionDef, s: Site, sub: C
     akey = s.key.replace(ctx.get('macro_call_scope', '\0'), 'PreprocessorData.<MacroCallScope>')     # the private class may be renamed
     if akey in ALLOW:
         return f'ALLOW: {ALLOW[akey]}'
+    # the same construct spelled through single-definition locals (`hex_digits = s[2:4]` ... `int(hex_digits, 16)`; `value = self.value`)
+    if ':' in akey and isinstance(node, ast.expr):
+        try:
+            rkey = akey.split(':', 1)[0] + ':' + norm(resolve_names(fn, node))
+        except (AnalysisError, RecursionError):
+            rkey = akey
+        if rkey in ALLOW:
+            return f'ALLOW: {ALLOW[rkey]} (read through locals)'
     guards = dominating_guards(node)
     # loop conditions dominate their bodies
     child: ast.AST = node
@@ -278,8 +286,8 @@ def context(repo: Repo) -> Dict[str, Any]:
     ctx['writer_flags_validated'] = any('flags < 0' in g and '1 << 64' in g for g in wg) and 'version not in SUPPORTED_VERSIONS_NAMES' in wg
     ctx['writer_validated'] = writer_validated(repo)[0]
     # macro lookup guard
-    ent = repo.func(PRE, _macro_call_scope(repo) + '.__enter__')
-    guarded = any(isinstance(n, ast.If) and cn(n.test) == cc('macro_name not in self.macros') and
+    ent = read_through_locals(repo.func(PRE, _macro_call_scope(repo) + '.__enter__'))
+    guarded = any(isinstance(n, ast.If) and cn(n.test) == cc('self.calling_op.macro_name not in self.macros') and
                   any(isinstance(c, ast.Call) and dotted(c.func) == 'macro_resolve_error' for c in ast.walk(n)) for n in ast.walk(ent))
     mre = repo.func(PRE, 'macro_resolve_error')
     noreturn = norm(mre.returns) == 'NoReturn' and isinstance(mre.body[-1], ast.Raise)
@@ -390,7 +398,7 @@ def _macro_call_scope(repo: Repo) -> str:
     cls = repo.cls(PRE, 'PreprocessorData')
     for st in cls.body:
         if isinstance(st, ast.ClassDef):
-            ent = [m for m in st.body if isinstance(m, ast.FunctionDef) and m.name == '__enter__']
+            ent = [read_through_locals(m) for m in st.body if isinstance(m, ast.FunctionDef) and m.name == '__enter__']
             if ent and any(isinstance(c, ast.Call) and dotted(c.func).endswith('curr_tree.append') for c in ast.walk(ent[0])):
                 return f'PreprocessorData.{st.name}'
     raise AnalysisError('PreprocessorData: the macro-call scope class (an __enter__ that appends to curr_tree) was not found')
@@ -410,7 +418,7 @@ def rule_recursion(rep: Report, repo: Repo, clo: List[Tuple[str, str, ast.Functi
         guarded = False
         why = ''
         if q == 'resolve_macro_aux':
-            ent = repo.func(PRE, _macro_call_scope(repo) + '.__enter__')
+            ent = read_through_locals(repo.func(PRE, _macro_call_scope(repo) + '.__enter__'))
             depth = any(isinstance(n, ast.If) and cn(n.test) == cc('len(self.curr_tree) > self.max_recursion_depth') for n in ast.walk(ent))
             pinit = repo.func(PRE, 'PreprocessorData.__init__')
             lim = [norm(c.args[0]) for c in calls(pinit) if dotted(c.func) == 'sys.setrecursionlimit']
@@ -647,6 +655,9 @@ def rule_int_format(rep: Report, repo: Repo, clo: List[Tuple[str, str, ast.Funct
         sinks: List[Tuple[ast.AST, str]] = []
         for n in walk_no_nested(fn):
             if isinstance(n, ast.FormattedValue):
+                spec = ''.join(str(v.value) for v in n.format_spec.values if isinstance(v, ast.Constant)) if isinstance(n.format_spec, ast.JoinedStr) else ''
+                if spec[-1:] in ('x', 'X', 'b', 'o'):
+                    continue                      # `{v:#x}` is hex() / bin() / oct() formatting: length-safe
                 sinks.append((n.value, 'f-string'))
             elif isinstance(n, ast.Call) and dotted(n.func) in ('str', 'repr') and len(n.args) == 1:
                 sinks.append((n.args[0], dotted(n.func) + '()'))
